@@ -2,7 +2,7 @@
 
 Workload: 1-3 script files whose 'life_<ctx>' service defines, redefines and deletes global @service functions at
 run time (default name, explicit name, two names in one decorator, two decorators, supports_response
-none/optional/only); default names collide between contexts (ownership); ops define / redefine / delete /
+none/optional/only, the default name spelled with a capital letter, one name given twice); default names collide between contexts (ownership); ops define / redefine / delete /
 edit+reload / unload / setup; calls with generated data after every op and, non-blocking, right before an op;
 plus outgoing calls from a script to a recording service through every call form; some of them carry ordinary data
 fields that merely share the NAME of a call option (context / blocking / return_response) without having its type.
@@ -14,6 +14,26 @@ the refresh of the service descriptions inside the start-up of a @service a real
 Assistant loads descriptions through the executor), so the stop can land between "name registered" and "start-up
 finished".
 
+Doc strings: a definition may carry a doc string, from which pyscript builds the service description: plain text, a
+'yaml' doc string that is a mapping (the documented form), an empty one, one that parses to plain text or to a list
+(no description can be built from it: Home Assistant refuses it AFTER the name was registered) or one that does not
+parse at all (refused before anything is registered).  In the same dimension: a @service function that also carries
+@state_active but no trigger decorator, which pyscript reports as an error ('no_trigger').  What pyscript does with a function whose description cannot be
+built is open (don't-care while that function is the declaring one); once it is redefined, deleted, reloaded away or
+unloaded, its names are undeclared and must be gone.
+
+File-level declarations: the script file itself (initial version and versions written by 'reload_ctx') may declare
+slot functions at top level, in every form and with every doc string kind; editing them away + reload, deleting the
+whole file + reload ('drop_file', restored by a later 'reload_ctx') and unload + set-up (file-level declarations come
+back) are lifecycle ops like the run-time ones.  The file's own services life_<ctx> / out_<ctx> are judged too.
+
+Findings of the unchanged code have their own violation classes (the run ends at the first of them, its
+consequences are not judged) and a 'steer' coin keeps half of the runs away from their constructs:
+C12.leak_after_description_failure (legacy: a definition that fails after its name was registered leaves it registered),
+C12.file_level_name_redefined_at_run_time (default subsystem: owner recorded under the function's context name),
+C12.handler_of_refused_definition_kept, C12.name_differing_in_case (both: bookkeeping keyed by the raw spelling),
+C12.name_given_twice_released_once (legacy).
+
 Oracle: a reference model of declared names, owners and latest generations.  Concurrent definitions/deletions of one
 slot are put in the order in which the script reported them done (marks 'life'), a definition whose context was
 reloaded/unloaded meanwhile is not declared by a loaded context any more, whenever it finishes.
@@ -22,7 +42,11 @@ reloaded/unloaded meanwhile is not declared by a loaded context any more, whenev
 from __future__ import annotations
 
 import copy
+import functools
+import gc
 import random
+import sys
+import weakref
 
 from ..common import base_result, gen_cfg
 from ..world import World
@@ -30,11 +54,19 @@ from ..world import World
 PROPERTY = "C12"
 LEVEL = "exploration"
 RULE = (
-    "seeded generation of <=18 lifecycle ops (define/redefine in 6 declaration forms, delete, reload, unload, setup) over "
+    "seeded generation of <=18 lifecycle ops (define/redefine in 8 declaration forms, delete, reload, unload, setup) over "
     "2 slots x 1-3 contexts, service calls with generated data after every op and in flight during ops, definitions "
     "still in progress (0-25 ms old, start-up suspended 0/2/8 ms in the service-description refresh) when their script "
     "is reloaded / the integration unloaded / the slot deleted or defined again, and outgoing calls in 4 call forms, "
-    "optionally with data fields named like a call option but of another type; distinct = scenario digest; "
+    "optionally with data fields named like a call option but of another type; definitions carry a doc string of 7 "
+    "kinds (none / text / yaml mapping / yaml empty / yaml that is plain text / yaml that is a list / yaml that does "
+    "not parse, 2-3 texts each) or, instead, @state_active without a trigger; file-level declarations of the slot functions in the initial file and in reloaded "
+    "versions (edited away by the next reload), deletion of a whole script file + reload and its later restoration; "
+    "steer (half of the runs) keeps away from the constructs with a finding on record: legacy gets no definition that "
+    "fails after registering (refused description, @state_active without trigger) and no name given twice, the "
+    "default subsystem no run-time definition in the form the file declares for that slot at file level, no run "
+    "the capital-letter spelling, no overlapping definitions one of which has a refused description; "
+    "distinct = scenario digest; "
     "non-trivial = a service name changed hands between generations"
 )
 ASSUMPTIONS = [
@@ -48,6 +80,16 @@ ASSUMPTIONS = [
     "which the script finished them (the statement following the def/del ran); a definition that is still in "
     "progress when its context is reloaded or unloaded belongs to no loaded context when it finishes",
     "the undocumented 'limit' option of the entity-method call form is not generated",
+    "a function whose doc string starts with 'yaml' but yields no service description (not a mapping, or not "
+    "parseable) is legal Python; whether its names are registered while it is the declaring function is don't-care "
+    "(also for another context that defines the same name meanwhile: who owns it is open until all of them are "
+    "gone); once no live function of a loaded context declares a name it must not be registered, whatever the doc "
+    "strings were",
+    "Home Assistant folds service names to lower case, so 'pyscript.S0' and 'pyscript.s0' are one service name, "
+    "for existence, for calling and for ownership",
+    "a name given twice in one @service is declared once",
+    "which of two script FILES wins a name both declare at file level depends on the load order, which is not "
+    "documented: file-level declarations use the default-name form only in single-file scenarios",
 ]
 TIERS = {
     "quick": {"runs": 450, "chunk": 15},
@@ -58,12 +100,42 @@ REACH_PROBES = ["name_changed_hands", "foreign_takeover_attempt", "call_in_fligh
                 "outgoing_entity_method", "outgoing_return_response", "two_calls_of_one_service_overlap",
                 "outgoing_option_named_data_field", "definition_in_progress_when_stopped",
                 "name_registered_by_definition_in_progress", "definition_in_progress_when_redefined_or_deleted",
-                "slow_service_description_load"]
+                "slow_service_description_load", "doc_string_plain", "doc_string_yaml_mapping",
+                "doc_string_yaml_not_a_mapping", "doc_string_yaml_unparseable", "description_refused_then_undeclared",
+                "name_defined_elsewhere_while_undecided", "file_level_declaration", "file_level_declaration_edited_away",
+                "file_level_declaration_back_after_setup", "script_file_deleted", "script_file_restored",
+                "file_level_name_redefined_at_run_time", "definition_overlapped_by_refused_definition",
+                "state_active_without_trigger", "name_declared_in_two_spellings", "name_given_twice_form"]
 SHRINK_LISTS = [["ops"]]
 
 CTXS = ["ca", "cb", "cc"]
-FORMS = ["default", "explicit", "two_names", "two_decorators", "optional", "only"]
+FORMS = ["default", "explicit", "two_names", "two_decorators", "optional", "only", "upper", "dup_names"]
+# 'upper': the default name written with a capital letter (Home Assistant folds service names to lower case, so it IS
+# the default name, also for ownership); 'dup_names': the same name twice in one decorator
 RACE_THEN = ["reload_ctx", "reload_ctx", "unload", "unload", "delete", "define"]
+# doc strings of a @service function: kind -> variants (the text between the triple quotes, first line first)
+DOC_BODIES = {
+    "text": [["blink the light named by who"], ["Sets n on the target.", "", "A longer explanation follows here."]],
+    "yaml_map": [["yaml", "description: blink the light", "fields:", "  n:", "    description: a number", "    example: 3"],
+                 ["yaml", "name: Blink", "description: blink it", "fields:", "  who:", "    description: target",
+                  "    required: true"]],
+    "yaml_empty": [["yaml"], ["yaml", "# nothing yet"]],
+    # parses, but not to a mapping: no description can be built from it
+    "yaml_text": [["yaml", "toggles the given light twice"], ["yaml based configuration is applied by this service"],
+                  ["yaml", "42"]],
+    "yaml_list": [["yaml", "- turn the light on", "- then off again"], ["yaml", "- n", "- who"]],
+    # does not parse
+    "yaml_broken": [["yaml", "description: [unclosed"], ["yaml", "description: x", "  fields: {"]],
+    # not a doc string: the function carries @state_active but no trigger decorator, which pyscript reports as an error
+    "no_trigger": [[]],
+}
+DOC_POOL = (["none"] * 12 + ["text"] * 2 + ["yaml_map"] * 2 + ["yaml_empty"] + ["yaml_text"] * 2 + ["yaml_list"] * 2 +
+            ["yaml_broken", "no_trigger"])
+SCHEMA_FAIL = ("yaml_text", "yaml_list")          # Home Assistant refuses the description after the name was registered
+BAD_DOCS = SCHEMA_FAIL + ("yaml_broken", "no_trigger")   # the definition is reported as an error by pyscript
+WHY_LEAK = {"yaml_text": "description_refused_after_registration", "yaml_list": "description_refused_after_registration",
+            "yaml_broken": "doc_string_unparseable", "no_trigger": "state_active_without_trigger"}
+TOP_GEN = 100                                     # generation number of a file-level definition = TOP_GEN + file version
 # values for a data field that is merely NAMED like a call option: never of the option's own type
 ODD_VALUES = {
     "context": ["kitchen", 7, None, ["hall"]],
@@ -73,8 +145,10 @@ ODD_VALUES = {
 
 
 def names_of(ctx: str, slot: int, form: str) -> list[str]:
-    if form == "default":
+    if form in ("default", "upper"):
         return [f"s{slot}"]
+    if form == "dup_names":
+        return [f"dup{slot}_{ctx}"]
     if form == "explicit":
         return [f"x{slot}_{ctx}"]
     if form == "two_names":
@@ -92,33 +166,110 @@ def gen(rng: random.Random, tier: str) -> dict:
     # injected suspension inside State.get_service_params(), i.e. inside the start-up of a @service (new subsystem)
     cfg["svc_params_delay_ms"] = rng.choice([0, 0, 2.0, 8.0])
     ctxs = CTXS[: rng.randint(1, 3)]
+    # half of the runs stay away from the construct with a finding on record (legacy subsystem: a doc string whose
+    # description Home Assistant refuses leaves the name registered for ever)
+    steer = rng.random() < 0.5
+    avoid = steer and cfg["legacy"]
+    # ... and from the other one (default subsystem: a run-time definition of a name the file also declares at file
+    # level is refused as another context's, and the name is lost)
+    avoid_over = steer and not cfg["legacy"]
+    file_top: dict = {}   # ctx -> {slot: form} declared at file level by the file version on disk
+
+    def gen_form(ctx, slot) -> str:
+        form = steer_form(rng.choice(FORMS + ["default", "default"]))
+        if avoid_over and file_top.get(ctx, {}).get(slot) == form:
+            form = steer_form(rng.choice([f for f in FORMS if f != form]))
+            if file_top.get(ctx, {}).get(slot) == form:
+                form = "explicit" if form != "explicit" else "optional"
+        return form
+
+    def note_top(ctx, decls) -> list:
+        file_top[ctx] = {d["slot"]: d["form"] for d in decls}
+        return decls
+
+    def steer_form(form: str) -> str:
+        if steer and form == "upper":
+            return "default"      # finding on record: names that differ only in case
+        if avoid and form == "dup_names":
+            return "two_names"    # finding on record (legacy): a name given twice is released once
+        return form
+
+    def gen_doc() -> dict:
+        doc = rng.choice(DOC_POOL)
+        docv = rng.randrange(6)
+        if doc == "none":
+            return {}
+        if avoid and doc in SCHEMA_FAIL + ("no_trigger",):
+            doc = "yaml_broken" if docv % 2 else "yaml_map"
+        return {"doc": doc, "docv": docv % len(DOC_BODIES[doc])}
+
+    def gen_top() -> list:
+        """File-level declarations of the slot functions (default names only where no other file can claim them)."""
+        decls = []
+        for slot in (0, 1):
+            if rng.random() < 0.4:
+                form = steer_form(rng.choice(FORMS))
+                if len(ctxs) > 1 and form in ("default", "upper"):
+                    form = "explicit"
+                decls.append({"slot": slot, "form": form, **gen_doc()})
+        return decls
+
+    top = {}
+    for ctx in ctxs:
+        if rng.random() < 0.3:
+            top[ctx] = note_top(ctx, gen_top())
     ops = []
+    restore: dict = {}    # ctx whose file was deleted -> ops until it is written again
     for _ in range(rng.randint(4, 18 if tier == "thorough" else 13)):
+        for ctx in sorted(restore):
+            restore[ctx] -= 1
+            if restore[ctx] <= 0:
+                del restore[ctx]
+                ops.append({"kind": "reload_ctx", "ctx": ctx, "top": note_top(ctx, gen_top() if rng.random() < 0.5 else [])})
         roll = rng.random()
         ctx = rng.choice(ctxs)
-        if roll < 0.45:
-            ops.append({"kind": "define", "ctx": ctx, "slot": rng.randint(0, 1), "form": rng.choice(FORMS + ["default", "default"]),
-                        "inflight": rng.random() < 0.3})
-        elif roll < 0.52:
+        if roll < 0.43:
+            slot = rng.randint(0, 1)
+            ops.append({"kind": "define", "ctx": ctx, "slot": slot, "form": gen_form(ctx, slot),
+                        "inflight": rng.random() < 0.3, **gen_doc()})
+        elif roll < 0.50:
             # a definition that is still in progress (issued, not awaited) when something stops or supersedes it
             then = rng.choice(RACE_THEN)
-            ops.append({"kind": "define_racing", "ctx": ctx, "slot": rng.randint(0, 1),
-                        "form": rng.choice(FORMS + ["default", "default"]), "then": then,
-                        "form2": rng.choice(FORMS + ["default", "default"]),
-                        "after_ms": rng.choice([0, 0.1, 0.4, 1, 3, 10, 25])})
+            slot = rng.randint(0, 1)
+            op = {"kind": "define_racing", "ctx": ctx, "slot": slot,
+                  "form": gen_form(ctx, slot), "then": then,
+                  "form2": gen_form(ctx, slot),
+                  "after_ms": rng.choice([0, 0.1, 0.4, 1, 3, 10, 25]), **gen_doc()}
+            if then == "reload_ctx":
+                note_top(ctx, [])
+            doc2 = gen_doc()
+            if doc2:
+                op["doc2"], op["docv2"] = doc2["doc"], doc2["docv"]
+            if steer and then == "define":
+                # (finding on record: the handler of a refused definition that overlapped another one stays)
+                for key, keyv in (("doc", "docv"), ("doc2", "docv2")):
+                    if op.get(key) in SCHEMA_FAIL:
+                        op[key], op[keyv] = "yaml_broken", op[keyv] % len(DOC_BODIES["yaml_broken"])
+            ops.append(op)
             if then == "unload":
                 ops.append({"kind": "setup"})
-        elif roll < 0.65:
+        elif roll < 0.62:
             ops.append({"kind": "delete", "ctx": ctx, "slot": rng.randint(0, 1), "inflight": rng.random() < 0.3})
-        elif roll < 0.72:
-            ops.append({"kind": "reload_ctx", "ctx": ctx})
-        elif roll < 0.80:
+        elif roll < 0.69:
+            ops.append({"kind": "reload_ctx", "ctx": ctx, "top": note_top(ctx, gen_top() if rng.random() < 0.5 else [])})
+        elif roll < 0.77:
             # two calls of one service in flight at once, the first resumes while the second is still suspended
             naps = rng.choice([[0.2, 0.3], [0.3, 0.1], [0.2, 0.2], [0.4, 0.5]])
             ops.append({"kind": "overlap", "ctx": ctx, "slot": rng.randint(0, 1), "naps": naps, "gap": 0.1})
-        elif roll < 0.85:
+        elif roll < 0.82:
             ops.append({"kind": "unload"})
             ops.append({"kind": "setup"})
+        elif roll < 0.86:
+            # the whole script file is deleted and pyscript reloaded; a later reload_ctx writes it again
+            if ctx not in restore:
+                ops.append({"kind": "drop_file", "ctx": ctx})
+                note_top(ctx, [])
+                restore[ctx] = rng.randint(1, 4)
         else:
             data = {"a": rng.randint(0, 9), "txt": rng.choice(["x", "y"])}
             flags = {}
@@ -141,15 +292,19 @@ def gen(rng: random.Random, tier: str) -> dict:
                     if key not in flags:
                         odd[key] = rng.choice(ODD_VALUES[key])
             ops.append({"kind": "out", "ctx": ctx, "form": form, "data": data, "flags": flags, "odd": odd})
-    return {"cfg": cfg, "spec": {"ctxs": ctxs}, "ops": ops}
+    return {"cfg": cfg, "spec": {"ctxs": ctxs, "top": top, "steer": steer}, "ops": ops}
 
 
-def _def_block(ctx: str, slot: int, form: str, indent: str) -> list[str]:
+def _def_block(ctx: str, slot: int, form: str, indent: str, doc: str = "none", docv: int = 0, gen_expr: str = "gen") -> list[str]:
     names = names_of(ctx, slot, form)
     fname = f"s{slot}"
     lines = []
     if form == "default":
         lines.append(f"{indent}@service")
+    elif form == "upper":
+        lines.append(f"{indent}@service('pyscript.S{slot}')")
+    elif form == "dup_names":
+        lines.append(f"{indent}@service('pyscript.{names[0]}', 'pyscript.{names[0]}')")
     elif form == "explicit":
         lines.append(f"{indent}@service('pyscript.{names[0]}')")
     elif form == "two_names":
@@ -161,22 +316,66 @@ def _def_block(ctx: str, slot: int, form: str, indent: str) -> list[str]:
         lines.append(f"{indent}@service('pyscript.{names[0]}', supports_response='optional')")
     else:
         lines.append(f"{indent}@service('pyscript.{names[0]}', supports_response='only')")
+    if doc == "no_trigger":
+        lines.append(f"{indent}@state_active('True')")
     lines.append(f"{indent}def {fname}(**kw):")
-    lines.append(f"{indent}    sim.mark('svc', {ctx!r}, {slot}, gen, {form!r}, **kw)")
+    if doc not in ("none", "no_trigger"):
+        body = DOC_BODIES[doc][docv % len(DOC_BODIES[doc])]
+        if len(body) == 1:
+            lines.append(f'{indent}    """{body[0]}"""')
+        else:
+            lines.append(f'{indent}    """{body[0]}')
+            lines += [f"{indent}    {ln}" if ln else "" for ln in body[1:]]
+            lines.append(f'{indent}    """')
+    lines.append(f"{indent}    sim.mark('svc', {ctx!r}, {slot}, {gen_expr}, {form!r}, **kw)")
     lines.append(f"{indent}    if kw.get('nap'):")
     lines.append(f"{indent}        task.sleep(kw['nap'])")
-    lines.append(f"{indent}        sim.mark('svc_end', {ctx!r}, {slot}, gen, {form!r}, **kw)")
-    lines.append(f"{indent}    return {{'ctx': {ctx!r}, 'slot': {slot}, 'gen': gen, 'n': kw.get('n')}}")
+    lines.append(f"{indent}        sim.mark('svc_end', {ctx!r}, {slot}, {gen_expr}, {form!r}, **kw)")
+    lines.append(f"{indent}    return {{'ctx': {ctx!r}, 'slot': {slot}, 'gen': {gen_expr}, 'n': kw.get('n')}}")
     return lines
 
 
-def _ctx_src(ctx: str, version: int) -> str:
-    lines = [f"# version {version}", "", "@service", f"def life_{ctx}(cmd=None, slot=None, gen=None, form=None):",
-             "    global s0, s1"]
+def _doc_of(op: dict, second: bool = False) -> tuple:
+    """(kind, variant) of the doc string of a definition op ('none' where the scenario predates doc strings)."""
+    doc = op.get("doc2" if second else "doc") or "none"
+    return doc, int(op.get("docv2" if second else "docv") or 0) if doc != "none" else 0
+
+
+def _docs_used(scn: dict, ctx: str) -> list:
+    """The (slot, form, doc, variant) combinations with a doc string that the ops define in ctx at run time."""
+    used = set()
+    for op in scn["ops"]:
+        if op.get("ctx") != ctx or op["kind"] not in ("define", "define_racing"):
+            continue
+        doc, docv = _doc_of(op)
+        if doc != "none":
+            used.add((op["slot"], op["form"], doc, docv))
+        if op["kind"] == "define_racing":
+            doc, docv = _doc_of(op, True)
+            if doc != "none":
+                used.add((op["slot"], op["form2"], doc, docv))
+    return sorted(used)
+
+
+def _ctx_src(ctx: str, version: int, docs=(), top=()) -> str:
+    lines = [f"# version {version}", ""]
+    for decl in top:
+        # file-level declaration of a slot function (the same global name the run-time definitions use)
+        doc, docv = _doc_of(decl)
+        lines += _def_block(ctx, decl["slot"], decl["form"], "", doc, docv, gen_expr=str(TOP_GEN + version))
+        lines.append("")
+    lines += ["@service", f"def life_{ctx}(cmd=None, slot=None, gen=None, form=None):",
+              "    global s0, s1"]
     for slot in (0, 1):
         for form in FORMS:
             lines.append(f"    if cmd == 'define' and slot == {slot} and form == {form!r}:")
             lines += _def_block(ctx, slot, form, "        ")
+            lines.append(f"        sim.mark('life', 'defd', {ctx!r}, {slot}, gen)")
+        for dslot, form, doc, docv in docs:
+            if dslot != slot:
+                continue
+            lines.append(f"    if cmd == 'define:{doc}:{docv}' and slot == {slot} and form == {form!r}:")
+            lines += _def_block(ctx, slot, form, "        ", doc, docv)
             lines.append(f"        sim.mark('life', 'defd', {ctx!r}, {slot}, gen)")
         lines.append(f"    if cmd == 'delete' and slot == {slot}:")
         lines.append(f"        del s{slot}")
@@ -205,8 +404,13 @@ def _ctx_src(ctx: str, version: int) -> str:
     return "\n".join(lines) + "\n"
 
 
+def _cmd_of(doc: str, docv: int) -> str:
+    return "define" if doc == "none" else f"define:{doc}:{docv}"
+
+
 def render(scn: dict) -> dict:
-    return {f"pyscript/{ctx}.py": _ctx_src(ctx, 0) for ctx in scn["spec"]["ctxs"]}
+    top = scn["spec"].get("top") or {}
+    return {f"pyscript/{ctx}.py": _ctx_src(ctx, 0, _docs_used(scn, ctx), top.get(ctx) or []) for ctx in scn["spec"]["ctxs"]}
 
 
 def normalize(scn: dict) -> dict | None:
@@ -216,6 +420,22 @@ def normalize(scn: dict) -> dict | None:
 
 
 def simplify(scn: dict):
+    # file-level declarations off / one by one / without doc string
+    top = scn["spec"].get("top") or {}
+    for ctx in sorted(top):
+        if top[ctx]:
+            cand = copy.deepcopy(scn)
+            cand["spec"]["top"][ctx] = []
+            yield cand
+            for j, decl in enumerate(top[ctx]):
+                if len(top[ctx]) > 1:
+                    cand = copy.deepcopy(scn)
+                    del cand["spec"]["top"][ctx][j]
+                    yield cand
+                if decl.get("doc"):
+                    cand = copy.deepcopy(scn)
+                    cand["spec"]["top"][ctx][j].pop("doc")
+                    yield cand
     if len(scn["spec"]["ctxs"]) > 1:
         used = {op.get("ctx") for op in scn["ops"]}
         for ctx in scn["spec"]["ctxs"]:
@@ -228,12 +448,44 @@ def simplify(scn: dict):
             cand = copy.deepcopy(scn)
             cand["ops"][i]["inflight"] = False
             yield cand
+        for key in ("doc", "doc2"):
+            if op.get(key):
+                # no doc string / the first text of its kind
+                cand = copy.deepcopy(scn)
+                cand["ops"][i].pop(key)
+                yield cand
+                if op.get(key.replace("doc", "docv")):
+                    cand = copy.deepcopy(scn)
+                    cand["ops"][i][key.replace("doc", "docv")] = 0
+                    yield cand
+        if op["kind"] == "reload_ctx" and op.get("top"):
+            cand = copy.deepcopy(scn)
+            cand["ops"][i]["top"] = []
+            yield cand
+            for j, decl in enumerate(op["top"]):
+                if len(op["top"]) > 1:
+                    cand = copy.deepcopy(scn)
+                    del cand["ops"][i]["top"][j]
+                    yield cand
+                if decl.get("doc"):
+                    cand = copy.deepcopy(scn)
+                    cand["ops"][i]["top"][j].pop("doc")
+                    yield cand
+        if op["kind"] == "drop_file":
+            # an edit + reload of the file instead of its deletion
+            cand = copy.deepcopy(scn)
+            cand["ops"][i] = {"kind": "reload_ctx", "ctx": op["ctx"], "top": []}
+            yield cand
         if op["kind"] == "define_racing":
             # an ordinary, awaited definition instead (followed by the plain form of what came after it)
             cand = copy.deepcopy(scn)
             plain = [{"kind": "define", "ctx": op["ctx"], "slot": op["slot"], "form": op["form"], "inflight": False}]
+            if op.get("doc"):
+                plain[0].update({"doc": op["doc"], "docv": op.get("docv", 0)})
             if op["then"] == "define":
                 plain.append({"kind": "define", "ctx": op["ctx"], "slot": op["slot"], "form": op["form2"], "inflight": False})
+                if op.get("doc2"):
+                    plain[1].update({"doc": op["doc2"], "docv": op.get("docv2", 0)})
             elif op["then"] == "unload":
                 plain.append({"kind": "unload"})
             else:
@@ -271,7 +523,87 @@ def warmup() -> None:
     run(scn)
 
 
+_LAST_HASS: list = []   # weak reference to the hass of the run that has just finished (harness bookkeeping only)
+
+
 def run(scn: dict) -> dict:
+    res = _run(scn)
+    _release_finished_world()
+    return res
+
+
+def _release_finished_world() -> None:
+    """Free what the finished world holds NOW, while pyscript's class-level references are reset.
+
+    A registration that pyscript leaks (the subject of this module) keeps its function object alive past the end of
+    the world; World.run's final gc.collect() cannot free it because the world is still referenced from _run's frame,
+    and afterwards the finished hass stays pinned by process-wide references until the next set-up replaces them.
+    Freed later - by gc_now() of the NEXT run in this worker process - the function's finaliser (EvalFuncVar.__del__
+    -> trigger_stop -> Function.service_remove) would remove the equally named service of that next run.
+    """
+    try:
+        from custom_components.pyscript.decorator import DecoratorRegistry
+        from custom_components.pyscript.decorator_abc import DecoratorManager
+        from custom_components.pyscript.trigger import TrigTime
+
+        for cls in (DecoratorManager, DecoratorRegistry, TrigTime):
+            cls.hass = None   # (class attributes that World's reset leaves; set again by the next set-up)
+    except Exception:  # pylint: disable=broad-except
+        pass
+    try:
+        from homeassistant import core as ha_core
+        from pytest_homeassistant_custom_component import common as ha_test_common
+
+        ha_core._hass.hass = None
+        del ha_test_common.INSTANCES[:]
+    except Exception:  # pylint: disable=broad-except
+        pass
+    # the default subsystem registers a weakref.finalize per decorated function whose callback (through its manager,
+    # the script context and the global symbol table) references the function variable itself: such a variable is never
+    # freed and pins its whole world.  The world is finished: drop those callbacks.
+    registry = getattr(weakref.finalize, "_registry", {})
+    for fin in list(registry):
+        info = registry.get(fin)
+        if info is not None and getattr(info.func, "__name__", "") == "on_func_var_deleted":
+            fin.detach()
+    fin = info = None
+    hook = sys.unraisablehook
+    sys.unraisablehook = lambda _unraisable: None   # the finalisers find no hass any more: nothing to report
+    try:
+        ref = _LAST_HASS.pop() if _LAST_HASS else None
+        for attempt in (0, 1):
+            # Home Assistant keeps per-hass singletons (registries, translation cache ...) in lru_caches keyed by hass
+            for cache in _ha_caches(refresh=bool(attempt)):
+                cache.cache_clear()
+            gc.collect()
+            if ref is None or ref() is None:
+                break
+            if attempt == 0:
+                # some other class attribute is the finished hass: reset it too
+                for holder in gc.get_referrers(ref()):
+                    if isinstance(holder, dict):
+                        for owner in gc.get_referrers(holder):
+                            if isinstance(owner, type):
+                                for key in [k for k, v in holder.items() if v is ref()]:
+                                    setattr(owner, key, None)
+                holder = owner = None
+        else:
+            raise RuntimeError("C12: the finished hass is still referenced; its finalisers could act on the next run")
+    finally:
+        sys.unraisablehook = hook
+
+
+_HA_CACHES: list = []
+
+
+def _ha_caches(refresh: bool = False) -> list:
+    if refresh or not _HA_CACHES:
+        _HA_CACHES[:] = [obj for obj in gc.get_objects() if isinstance(obj, functools._lru_cache_wrapper) and
+                         (getattr(obj, "__module__", "") or "").startswith("homeassistant.")]
+    return _HA_CACHES
+
+
+def _run(scn: dict) -> dict:
     spec = scn["spec"]
     cfg = dict(scn["cfg"])
     cfg["initial_states"] = {"test.e1": ["on", {}]}
@@ -318,11 +650,18 @@ def run(scn: dict) -> dict:
 
         w.natives["make_context"] = make_context
         await w.started()
+        del _LAST_HASS[:]
+        _LAST_HASS.append(weakref.ref(w.hass))
         # ---- reference model
         slots: dict = {}      # (ctx, slot) -> {"gen", "form", "names": registered names}
         owner: dict = {}      # name -> ctx
         gens: dict = {}
         version = {ctx: 0 for ctx in spec["ctxs"]}
+        docs_used = {ctx: _docs_used(scn, ctx) for ctx in spec["ctxs"]}
+        cur_top = {ctx: list((spec.get("top") or {}).get(ctx) or []) for ctx in spec["ctxs"]}   # file-level declarations
+        dropped: set = set()  # contexts whose script file is deleted
+        mixed: set = set()    # names declared, at overlapping times, in spellings that differ in case
+        tainted: dict = {}    # name -> doc kind: declared by a function without usable description, not seen absent since
         entry_loaded = True
         call_n = [0]
         all_names = sorted({n for ctx in spec["ctxs"] for slot in (0, 1) for form in FORMS for n in names_of(ctx, slot, form)})
@@ -339,26 +678,69 @@ def run(scn: dict) -> dict:
             ent = slots.pop((ctx, slot), None)
             if ent is None:
                 return
+            if ent.get("doc") in SCHEMA_FAIL:
+                w.probe("description_refused_then_undeclared")
             dec = declared()
             for name in ent["names"]:
                 if name not in dec:
                     owner.pop(name, None)
 
-        def model_define(ctx, slot, form, gen_no):
+        def taint(name, doc):
+            """Remember the kind of failed definition that declared the name (one that registers first wins the label)."""
+            rank = {None: 0, "yaml_broken": 1, "no_trigger": 2}
+            if rank.get(doc, 3) >= rank.get(tainted.get(name), 3):
+                tainted[name] = doc
+
+        def undecided_elsewhere(ctx, name) -> bool:
+            """Another context has a live definition of the name whose registration is open (see ASSUMPTIONS)."""
+            return any(ent.get("uncertain") and c != ctx and name in names_of(c, sl, ent["form"])
+                       for (c, sl), ent in slots.items())
+
+        def note_spelling(ctx, slot, form):
+            """A definition is made (or begun) while another live one spells the same service name differently."""
+            for name in names_of(ctx, slot, form):
+                if any((ent["form"] == "upper") != (form == "upper") for (c, sl), ent in slots.items()
+                       if name in names_of(c, sl, ent["form"])):
+                    mixed.add(name)
+                    w.probe("name_declared_in_two_spellings")
+
+        def model_define(ctx, slot, form, gen_no, doc="none"):
             """Register-before-remove: the new definition takes its names, then the old one is dropped."""
             new_names = []
             conflict = False
+            uncertain = False
+            note_spelling(ctx, slot, form)
             for name in names_of(ctx, slot, form):
                 if owner.get(name, ctx) != ctx:
                     conflict = True
                     w.probe("foreign_takeover_attempt")
                     continue
+                if undecided_elsewhere(ctx, name):
+                    # whether the other context holds the name is open, so whether this one gets it is open too
+                    uncertain = True
+                    w.probe("name_defined_elsewhere_while_undecided")
+                    continue
                 new_names.append(name)
+            if doc in BAD_DOCS:
+                # no service description can be built: what happens to the names while this function declares them
+                # is open; a refused take-over stays a refused take-over
+                w.probe({"yaml_broken": "doc_string_yaml_unparseable", "no_trigger": "state_active_without_trigger"}.get(
+                    doc, "doc_string_yaml_not_a_mapping"))
+                uncertain = uncertain or not conflict
+                new_names = []
+                for name in names_of(ctx, slot, form):
+                    taint(name, doc)
+            elif doc != "none":
+                w.probe("doc_string_plain" if doc == "text" else "doc_string_yaml_mapping")
             old = slots.get((ctx, slot))
             if old and set(old["names"]) != set(new_names):
                 state["changed_hands"] = True
                 w.probe("name_changed_hands")
-            slots[(ctx, slot)] = {"gen": gen_no, "form": form, "names": new_names, "conflict": conflict}
+            over = bool(old and old["gen"] >= TOP_GEN > gen_no and set(old["names"]) & set(new_names))
+            if over:
+                w.probe("file_level_name_redefined_at_run_time")
+            slots[(ctx, slot)] = {"gen": gen_no, "form": form, "names": new_names, "conflict": conflict,
+                                  "uncertain": uncertain, "doc": doc, "over_file_level": over}
             for name in new_names:
                 owner[name] = ctx
             if old:
@@ -370,6 +752,21 @@ def run(scn: dict) -> dict:
                 w.probe("alias_form")
             if form == "two_decorators":
                 w.probe("two_decorators_form")
+            if form == "dup_names":
+                w.probe("name_given_twice_form")
+
+        def nviol(name, cls, sig, detail):
+            """A violation about one service name (own class where the name is part of a construct with a finding)."""
+            if name in mixed:
+                viol("C12.name_differing_in_case", {"what": cls.split(".", 1)[1]},
+                     detail + f" [pyscript.{name} has been declared both as 'pyscript.S{name[1:]}' and as 'pyscript.{name}']")
+                state["leaked"] = True
+            elif cls == "C12.registration" and not sig["should_exist"] and _form_of(name) == "dup_names":
+                viol("C12.name_given_twice_released_once", {},
+                     detail + " [the function that declared it gave this name twice in one @service]")
+                state["leaked"] = True
+            else:
+                viol(cls, sig, detail)
 
         async def check_all(tag):
             dec = declared() if entry_loaded else {}
@@ -377,16 +774,54 @@ def run(scn: dict) -> dict:
             for (ctx, slot), ent in slots.items():
                 if ent.get("conflict"):
                     dontcare.update(names_of(ctx, slot, ent["form"]))
+            undecided = set()
+            for (ctx, slot), ent in slots.items():
+                if ent.get("uncertain"):
+                    undecided.update(names_of(ctx, slot, ent["form"]))
+            # the services the script files themselves declare at file level
+            for ctx in spec["ctxs"]:
+                for name in (f"life_{ctx}", f"out_{ctx}"):
+                    has = w.hass.services.has_service("pyscript", name)
+                    should = entry_loaded and ctx not in dropped
+                    if has != should:
+                        viol("C12.registration", {"should_exist": should, "form": "file_level"},
+                             f"after {tag}: pyscript.{name} exists={has}, but the file {ctx}.py is "
+                             f"{'loaded' if should else 'deleted' if ctx in dropped else 'unloaded'}")
             for name in all_names:
+                if name in undecided:
+                    continue
                 has = w.hass.services.has_service("pyscript", name)
                 should = name in dec
+                if not has and not should:
+                    tainted.pop(name, None)
                 if name in dontcare and not should:
                     # a name that could not be taken: the owner keeps it (checked through the owner), else open
                     if owner.get(name) is None:
                         continue
                     should = True
+                if has and not should and name in tainted and owner.get(name) is None:
+                    # declared, at some time since it was last seen absent, by a function without a usable service
+                    # description; no live function declares it now
+                    nviol(name, "C12.leak_after_description_failure",
+                         {"why": WHY_LEAK[tainted[name]]},
+                         f"after {tag}: pyscript.{name} is still registered although no live function of a loaded "
+                         f"context declares it; a function that pyscript reported as an error ('{tainted[name]}': "
+                         f"{'@state_active without a trigger' if tainted[name] == 'no_trigger' else 'no service description can be built from its doc string'}"
+                         f") declared it before and has been redefined / deleted / reloaded away / "
+                         f"unloaded since (declared now {dec}, owners {owner})")
+                    # pyscript's own bookkeeping of this name (reference count, owner) is unknown from here on
+                    state["leaked"] = True
+                    continue
+                over = any(slots[h].get("over_file_level") for h in dec.get(name, []))
+                if should and not has and over:
+                    nviol(name, "C12.file_level_name_redefined_at_run_time", {"what": "missing"},
+                         f"after {tag}: pyscript.{name} is not registered; the script file declares it at file level and "
+                         f"a function of the same file has just defined the function again with the same service name "
+                         f"(declared {dec}, owners {owner})")
+                    state["leaked"] = True
+                    continue
                 if has != should:
-                    viol("C12.registration", {"should_exist": should, "form": _form_of(name)},
+                    nviol(name, "C12.registration", {"should_exist": should, "form": _form_of(name)},
                          f"after {tag}: pyscript.{name} exists={has}, reference says {should} (declared {dec}, owners {owner})")
                     continue
                 if not has:
@@ -404,31 +839,69 @@ def run(scn: dict) -> dict:
                 try:
                     resp = await w.call_service("pyscript", name, data, blocking=True, return_response=want_resp)
                 except ServiceNotFound:
-                    viol("C12.registration", {"should_exist": True, "form": _form_of(name)}, f"after {tag}: pyscript.{name} vanished")
+                    nviol(name, "C12.registration", {"should_exist": True, "form": _form_of(name)}, f"after {tag}: pyscript.{name} vanished")
                     continue
                 except Exception as exc:  # pylint: disable=broad-except
-                    viol("C12.call_raised", {"form": ent["form"]}, f"after {tag}: calling pyscript.{name} raised {exc!r}")
+                    nviol(name, "C12.call_raised", {"form": ent["form"]}, f"after {tag}: calling pyscript.{name} raised {exc!r}")
                     continue
                 await w.settle(0.02)
                 got = [m for m in w.marks[pos:] if m["args"][0] == "svc"]
                 exp_args = ["svc", ctx, slot, ent["gen"], ent["form"]]
-                if len(got) != 1 or got[0]["args"] != exp_args:
-                    viol("C12.wrong_definition_ran", {"form": ent["form"]},
+                if over and len(got) == 1 and got[0]["args"][:3] == exp_args[:3] and got[0]["args"][3] >= TOP_GEN:
+                    nviol(name, "C12.file_level_name_redefined_at_run_time", {"what": "file_level_definition_still_runs"},
+                         f"after {tag}: calling pyscript.{name} ran {got[0]['args']}, the file-level definition, although "
+                         f"the function has been defined again at run time with the same service name: expected {exp_args}")
+                    state["leaked"] = True
+                elif (len(got) == 1 and got[0]["args"][:3] == exp_args[:3] and ent.get("raced_with_refused") is not None and
+                      got[0]["args"][3] == ent["raced_with_refused"]):
+                    nviol(name, "C12.handler_of_refused_definition_kept", {},
+                         f"after {tag}: calling pyscript.{name} ran {got[0]['args']}: the definition whose service "
+                         f"description Home Assistant refused and which the script has replaced since; it was made while "
+                         f"the definition that is current now was still starting up; expected {exp_args}")
+                    state["leaked"] = True
+                elif len(got) != 1 or got[0]["args"] != exp_args:
+                    nviol(name, "C12.wrong_definition_ran", {"form": ent["form"]},
                          f"after {tag}: calling pyscript.{name} ran {[m['args'] for m in got]}, expected {exp_args}")
                 elif {k: v for k, v in got[0]["kw"].items() if k != "context"} != {"trigger_type": "service", **data}:
-                    viol("C12.call_kwargs", {"form": ent["form"]},
+                    nviol(name, "C12.call_kwargs", {"form": ent["form"]},
                          f"after {tag}: pyscript.{name} got kwargs {got[0]['kw']}, expected data {data} + trigger_type")
                 if want_resp:
                     w.probe("response_returned")
                     if resp != {"ctx": ctx, "slot": slot, "gen": ent["gen"], "n": data["n"]}:
-                        viol("C12.response", {"form": ent["form"]}, f"after {tag}: pyscript.{name} returned {resp!r}")
+                        nviol(name, "C12.response", {"form": ent["form"]}, f"after {tag}: pyscript.{name} returned {resp!r}")
 
+        def model_file_level(ctx, probe):
+            """The file-level declarations of the file version that is on disk were (re)loaded."""
+            for decl in cur_top[ctx]:
+                w.probe(probe)
+                model_define(ctx, decl["slot"], decl["form"], TOP_GEN + version[ctx], _doc_of(decl)[0])
+
+        async def rewrite_and_reload(ctx, top):
+            """The script file is edited (or written again after its deletion) and pyscript reloaded."""
+            version[ctx] += 1
+            if cur_top[ctx] and any(c == ctx for (c, _s) in slots):
+                w.probe("file_level_declaration_edited_away")
+            if ctx in dropped:
+                w.probe("script_file_restored")
+            w.write_file(f"pyscript/{ctx}.py", _ctx_src(ctx, version[ctx], docs_used[ctx], top))
+            await w.reload()
+            dropped.discard(ctx)
+            cur_top[ctx] = list(top)
+            # whatever the old script defined (or was still defining) is not declared by a loaded context any more
+            for k in [k for k in slots if k[0] == ctx]:
+                model_remove(*k)
+            model_file_level(ctx, "file_level_declaration")
+
+        for ctx in spec["ctxs"]:
+            model_file_level(ctx, "file_level_declaration")
         await check_all("start")
         for i, op in enumerate(scn["ops"]):
             kind = op["kind"]
             tag = f"op{i}:{kind}"
             if not entry_loaded and kind != "setup":
                 continue
+            if op.get("ctx") in dropped and kind != "reload_ctx":
+                continue   # the file of this context is deleted: nothing to talk to
             inflight = None
             if kind in ("define", "delete") and op.get("inflight"):
                 ent = slots.get((op["ctx"], op["slot"]))
@@ -447,9 +920,10 @@ def run(scn: dict) -> dict:
             if kind == "define":
                 key = (op["ctx"], op["slot"])
                 gens[key] = gens.get(key, 0) + 1
-                await w.call_service("pyscript", f"life_{op['ctx']}", {"cmd": "define", "slot": op["slot"], "gen": gens[key],
-                                                                       "form": op["form"]})
-                model_define(op["ctx"], op["slot"], op["form"], gens[key])
+                doc, docv = _doc_of(op)
+                await w.call_service("pyscript", f"life_{op['ctx']}", {"cmd": _cmd_of(doc, docv), "slot": op["slot"],
+                                                                       "gen": gens[key], "form": op["form"]})
+                model_define(op["ctx"], op["slot"], op["form"], gens[key], doc)
             elif kind == "delete":
                 if (op["ctx"], op["slot"]) not in slots:
                     continue
@@ -457,11 +931,15 @@ def run(scn: dict) -> dict:
                 await w.call_service("pyscript", f"life_{op['ctx']}", {"cmd": "delete", "slot": op["slot"]})
                 model_remove(op["ctx"], op["slot"])
             elif kind == "reload_ctx":
-                version[op["ctx"]] += 1
-                w.write_file(f"pyscript/{op['ctx']}.py", _ctx_src(op["ctx"], version[op["ctx"]]))
-                await w.reload()
                 if any(c == op["ctx"] for (c, _s) in slots):
                     w.probe("reload_dropped_runtime_definitions")
+                await rewrite_and_reload(op["ctx"], op.get("top") or [])
+            elif kind == "drop_file":
+                w.probe("script_file_deleted")
+                w.delete_file(f"pyscript/{op['ctx']}.py")
+                await w.reload()
+                dropped.add(op["ctx"])
+                cur_top[op["ctx"]] = []
                 for key in [k for k in slots if k[0] == op["ctx"]]:
                     model_remove(*key)
             elif kind == "unload":
@@ -474,6 +952,10 @@ def run(scn: dict) -> dict:
                     continue
                 await w.setup_entry()
                 entry_loaded = True
+                # the files are loaded again as they are on disk: their file-level declarations are back
+                for ctx in spec["ctxs"]:
+                    if ctx not in dropped:
+                        model_file_level(ctx, "file_level_declaration_back_after_setup")
             elif kind == "define_racing":
                 ctx, slot = op["ctx"], op["slot"]
                 key = (ctx, slot)
@@ -481,8 +963,15 @@ def run(scn: dict) -> dict:
                 g1 = gens[key]
                 pos = len(w.marks)
                 had = {n: w.hass.services.has_service("pyscript", n) for n in names_of(ctx, slot, op["form"])}
-                await w.call_service("pyscript", f"life_{ctx}", {"cmd": "define", "slot": slot, "gen": g1, "form": op["form"]},
-                                     blocking=False)
+                doc1, docv1 = _doc_of(op)
+                doc2, docv2 = _doc_of(op, True)
+                note_spelling(ctx, slot, op["form"])
+                if doc1 in BAD_DOCS:
+                    # (also when the definition never gets into the reference model because its script is stopped)
+                    for name in names_of(ctx, slot, op["form"]):
+                        taint(name, doc1)
+                await w.call_service("pyscript", f"life_{ctx}", {"cmd": _cmd_of(doc1, docv1), "slot": slot, "gen": g1,
+                                                                 "form": op["form"]}, blocking=False)
                 if op["after_ms"]:
                     await w.sleep(op["after_ms"] / 1000.0)
 
@@ -498,12 +987,9 @@ def run(scn: dict) -> dict:
                     if any(w.hass.services.has_service("pyscript", n) and not had[n] for n in had):
                         w.probe("name_registered_by_definition_in_progress")
                 if then == "reload_ctx":
-                    version[ctx] += 1
-                    w.write_file(f"pyscript/{ctx}.py", _ctx_src(ctx, version[ctx]))
-                    await w.reload()
-                    # whatever the old script was still defining is not declared by a loaded context any more
-                    for k in [k for k in slots if k[0] == ctx]:
-                        model_remove(*k)
+                    # (the new version declares nothing at file level: what an old definition still in progress does
+                    # to a name the new file declares too is left to the plain ops)
+                    await rewrite_and_reload(ctx, [])
                 elif then == "unload":
                     await w.unload_entry()
                     for k in list(slots):
@@ -516,7 +1002,7 @@ def run(scn: dict) -> dict:
                     elif then == "define":
                         gens[key] += 1
                         g2 = gens[key]
-                        await w.call_service("pyscript", f"life_{ctx}", {"cmd": "define", "slot": slot, "gen": g2,
+                        await w.call_service("pyscript", f"life_{ctx}", {"cmd": _cmd_of(doc2, docv2), "slot": slot, "gen": g2,
                                                                          "form": op["form2"]})
                     await w.settle(0.1)
                     # the order in which the script finished the statements is the order in which they took effect
@@ -537,7 +1023,12 @@ def run(scn: dict) -> dict:
                         if what == "del":
                             model_remove(ctx, slot)
                         else:
-                            model_define(ctx, slot, op["form"] if gen_no == g1 else op["form2"], gen_no)
+                            model_define(ctx, slot, op["form"] if gen_no == g1 else op["form2"], gen_no,
+                                         doc1 if gen_no == g1 else doc2)
+                    if then == "define" and (doc1 in SCHEMA_FAIL) != (doc2 in SCHEMA_FAIL) and key in slots:
+                        # one of the two overlapping definitions was refused by Home Assistant after it had registered
+                        w.probe("definition_overlapped_by_refused_definition")
+                        slots[key]["raced_with_refused"] = g1 if doc1 in SCHEMA_FAIL else g2
             elif kind == "overlap":
                 import asyncio
 
@@ -626,6 +1117,8 @@ def run(scn: dict) -> dict:
                     viol("C12.inflight_call", {"count": len(got)},
                          f"{tag}: the call of pyscript.{inflight['name']} made just before the op ran {len(got)} times")
             await check_all(tag)
+            if state.get("leaked"):
+                return   # the run diverged: later consequences of the leaked registration are not judged
 
     if float(cfg.get("svc_params_delay_ms") or 0.0) > 0:
         w.probe("slow_service_description_load")
@@ -637,7 +1130,7 @@ def run(scn: dict) -> dict:
 
 
 def _form_of(name: str) -> str:
-    for prefix, form in (("s", "default"), ("x", "explicit"), ("al", "two_names"), ("d", "two_decorators"), ("opt", "optional"),
+    for prefix, form in (("s", "default"), ("dup", "dup_names"), ("x", "explicit"), ("al", "two_names"), ("d", "two_decorators"), ("opt", "optional"),
                          ("only", "only")):
         if name.startswith(prefix) and name[len(prefix)].isdigit():
             return form
